@@ -779,6 +779,10 @@ func (g *dgen) customError(s *spec.Service, e *spec.ErrorDef) {
 	t := g.t
 	k := t.Pick("err-type", 6, 1, 2, 2)
 	if k == 0 {
+		if t.Draw("err-empty-body", 5) == 0 {
+			e.EmptyBody = true // a default-type error without a body: its attributes travel in goa-attribute-* headers
+			g.feat("errors:empty-body")
+		}
 		return
 	}
 	e.Temporary, e.Timeout, e.Fault = false, false, false // flags belong to the default error type
@@ -874,7 +878,9 @@ func GenDesign(t *verifsim.Tape, name, focus string) *spec.Design {
 		g.svcLevelErr = ""
 		g.prevStar = nil
 		if t.Draw("svc-level-error", 3) == 0 {
-			g.svcLevelErr = s.Errors[t.Draw("which-svc-error", len(s.Errors))].Name
+			se := s.Errors[t.Draw("which-svc-error", len(s.Errors))]
+			g.svcLevelErr = se.Name
+			se.EmptyBody = false // goa refuses Body(...) in a response mapped at service level
 			g.feat("errors:service-level")
 		}
 		nm := 1 + t.Pick("nmethods", 3, 3, 2, 1)
